@@ -253,6 +253,11 @@ func main() {
 		}
 		fmt.Println("replay: no violation")
 	case "check":
+		if os.Args[2] == "C01range" {
+			rc := eb.RangeCheck(false)
+			eb.Cleanup()
+			os.Exit(rc)
+		}
 		os.Exit(check(os.Args[2]))
 	}
 }
